@@ -114,6 +114,9 @@ class C01(core.Check):
         c.append({'k': 'file', 'bytes': [0xfe, 0x1a], 'name': 'X'})
         c.append({'k': 'file', 'bytes': [0xff], 'name': 'X'})
         c.append({'k': 'file', 'bytes': [0xfc, 1, 2, 3], 'name': 'X'})
+        c.append({'k': 'file', 'bytes': [254, 194, 2, 82, 129, 234, 9, 230], 'name': 'X'})     # D01j: constant cut short by the end of the text
+        c.append({'k': 'file', 'bytes': [0xff, 0x7a, 0x12, 10, 0, 0x91, 0x20, 0x1d], 'name': 'X'})
+        c.append({'k': 'file', 'bytes': [0xff, 0x7a, 0x12, 10, 0, 0x89, 0x20, 0x0e, 5], 'name': 'X'})
         import struct as _st
         def _tok(lines):
             o, a = b'\xff', 0x126e + 1
